@@ -1,6 +1,9 @@
 import PdfModel.Lemmas.Widths
 import PdfModel.Lemmas.CMapWrite
 import PdfModel.Lemmas.CMapTotal
+import PdfModel.Lemmas.CMapSpell
+import PdfModel.Lemmas.CMapSpellCheck
+import PdfModel.Lemmas.FontEncoding
 
 /-!
   C19 — "Glyph widths and Unicode maps follow the font dictionaries exactly".
@@ -163,6 +166,58 @@ theorem simple_font_width_negative (zero : α) (first : Int) (hf : first < 0) (h
   have : c < 18446744073709551616 - first.natAbs := by omega
   simp [simpleWidths, hf, Widths.get, this]
 
+/-- Simple fonts through `Font::widths` with the descriptor's /MissingWidth: inside the table the entry at
+    code − FirstChar, outside the table (before FirstChar, after the last entry, or no /Widths at all) the
+    /MissingWidth, `0` when the font has no descriptor. (After the `fix:` commit: the table used to default to 0.) -/
+theorem simple_font_missing_width (zero : α) (first : Nat) (ws : Option (List α)) (missing : Option α) (c : Nat) :
+    ∃ w, widthsOf zero (.simple (some (first : Int)) ws missing) = .ok (some w) ∧
+      w.get c = if first ≤ c then ((ws.getD [])[c - first]?).getD (missing.getD zero) else missing.getD zero :=
+  ⟨_, rfl, simple_font_width (missing.getD zero) first ws c⟩
+
+/-- What `Font::widths` reports for each of the seven subtypes the library distinguishes: Type1 / TrueType → the
+    table above when /FirstChar is present, nothing otherwise; MMType1 / Type3 (kept as raw dictionaries) → nothing;
+    Type0 → what its first descendant reports, nothing without a descendant; CIDFontType0 / CIDFontType2 → the /W
+    interpreter's table or its error. -/
+theorem widths_by_subtype (zero : α) :
+    (widthsOf zero (.other : FontM α) = .ok none) ∧
+    (∀ ws mw, widthsOf zero (.simple none ws mw : FontM α) = .ok none) ∧
+    (widthsOf zero (.type0 [] : FontM α) = .ok none) ∧
+    (∀ d ds, widthsOf zero (.type0 (d :: ds) : FontM α) = widthsOf zero d) ∧
+    (∀ dw w t, cidWidths dw w = .ok t → widthsOf zero (.cid dw w : FontM α) = .ok (some t)) ∧
+    (∀ dw w, cidWidths dw w = .err → widthsOf zero (.cid dw w : FontM α) = .err) := by
+  refine ⟨rfl, fun _ _ => rfl, rfl, fun _ _ => rfl, ?_, ?_⟩
+  · intro dw w t h; simp [widthsOf, h]
+  · intro dw w h; simp [widthsOf, h]
+
+/-- a composite font over a CID font with a well-formed /W array reports exactly what the array assigns -/
+theorem type0_widths (zero dw cx : α) (gs : List (Group α)) (wf : ∀ g ∈ gs, g.wf = true) (ds : List (FontM α)) :
+    ∃ w, widthsOf zero (.type0 (.cid dw (render cx gs) :: ds)) = .ok (some w) ∧
+      ∀ c, w.get c = (lastAssign gs c).getD dw := by
+  obtain ⟨w, h1, h2⟩ := widths_last_assignment dw cx gs wf
+  exact ⟨w, by simp [widthsOf, h1], h2⟩
+
+/-! ### encoding differences: which glyph name a code of a simple font selects -/
+
+open FontEncoding in
+/-- For every well-formed /Differences array — groups `code name₀ name₁ …`, any number and order, overlapping or
+    not — the encoding maps `code + i` to `nameᵢ` of the last group mentioning it (and leaves every other code to
+    the base encoding). -/
+theorem differences_spec {ν : Type} (gs : List (Nat × List ν)) (h : ∀ g ∈ gs, g.1 + g.2.length < 4294967296) :
+    ∃ m, readDiffs 0 (renderGroups gs) [] = .ok m ∧
+      ∀ code, m.get code = ((groupPairs gs).reverse.find? (·.1 == code)).map (·.2) :=
+  ⟨(groupPairs gs).reverse, by simpa using readDiffs_groups gs 0 [] h, fun _ => rfl⟩
+
+open FontEncoding in
+/-- `Encoding::to_primitive` then `Encoding::from_primitive`: the /Differences array written for any map (sorted
+    entries, codes below 2^32 − 1) reads back as the same map, and the writer's `n + 1` never overflows. -/
+theorem differences_roundtrip {ν : Type} (l : List (Nat × ν)) (hs : sortedFrom 0 l) :
+    ∃ items m, writeDiffs none l = .ok items ∧ readDiffs 0 items [] = .ok m ∧
+      ∀ code, m.get code = (l.find? (·.1 == code)).map (·.2) := by
+  obtain ⟨items, h1, h2⟩ := write_read l none 0 [] hs (fun p hp => by cases hp)
+  refine ⟨items, l.reverse, h1, by simpa using h2, fun code => ?_⟩
+  simp only [DMap.get]
+  rw [find_reverse_sorted code l 0 hs]
+
 /-! ### character maps -/
 
 open CMap
@@ -174,6 +229,25 @@ open CMap
 theorem cmap_spec (es : List Ent) (wf : ∀ e ∈ es, e.wf = true) :
     ∃ m, parseCMap (CMap.render none es) = .ok m ∧ ∀ cid, m.get cid = denote es cid :=
   ⟨(pairs es).reverse, parseCMap_render es wf, fun _ => rfl⟩
+
+/-- Clause "every well-formed map using single-code entries and both range forms assigns each code the text the
+    specification defines", for *every conformant spelling* of the program, not only the writer's layout:
+    any white space (NUL, TAB, LF, FF, CR, SP) and comments between tokens, upper- or lower-case hexadecimal digits
+    with white space between them, one- or two-byte codes, any number and order of `beginbfchar` / `beginbfrange`
+    blocks, and between the blocks anything made of tokens other than the three keywords the reader reacts to
+    (PostScript header and trailer, `begincodespacerange … endcodespacerange`, `usecmap`, counts, dictionaries,
+    names, literal strings), up to `endcmap` or the end of the text. Single codes, string-form ranges, array-form
+    ranges, supplementary planes (surrogate pairs) and multi-character (ligature) destinations alike. -/
+theorem cmap_reads_spelling (es : List Ent) (text : Bytes) (h : CMapSpells es text) :
+    ∃ m, parseCMap text = .ok m ∧ ∀ cid, m.get cid = denote es cid :=
+  ⟨(pairs es).reverse, parseCMap_spelling h, fun _ => rfl⟩
+
+/-- The domain certificate the driver hands to the harness is sound: the executable recogniser
+    `spellsCheck` (run on every conformant CMap text the harness generates, with the entries the generator meant)
+    only accepts members of `CMapSpells`, hence texts on which the reader yields `denote`. -/
+theorem certificates_sound (es : List Ent) (text : Bytes) (h : spellsCheck es text = true) :
+    CMapSpells es text ∧ ∃ m, parseCMap text = .ok m ∧ ∀ cid, m.get cid = denote es cid :=
+  ⟨spellsCheck_sound h, cmap_reads_spelling es text (spellsCheck_sound h)⟩
 
 /-- Clause "for every code-to-text map, the character-map text produced by the writer reads back as the same
     map": for the sorted entry list of any map `u16 → Unicode string` (keys strictly increasing below 65536,
@@ -197,15 +271,28 @@ theorem parse_cmap_total (bs : Bytes) : parseCMap bs ≠ .oof := parseCMap_ne_oo
 
 /-- a program with a single code, a supplementary-plane text (U+1F600), both range forms -/
 def exProgram : List Ent :=
-  [.char 3 [0x20], .char 65535 [0x1F600, 0x41],
-   .rstr 0x10 [[0x41], [0x42], [0x43]],
-   .rarr 0x20 [[0x61], [0x10FFFF], [0xE000, 0x62]],
-   .char 0x30 [0x1F600]]
+  [.char 65535 [0x1F600, 0x41], .rstr 0x10 [[0x41], [0x42]], .rarr 0x20 [[0x61], [0x10FFFF]]]
 
 example : ∀ e ∈ exProgram, e.wf = true := by decide
 example : parseCMap (CMap.render none exProgram) =
-    .ok [(0x30, [0x1F600]), (0x22, [0xE000, 0x62]), (0x21, [0x10FFFF]), (0x20, [0x61]), (0x12, [0x43]), (0x11, [0x42]),
-         (0x10, [0x41]), (65535, [0x1F600, 0x41]), (3, [0x20])] := by decide +kernel
+    .ok [(0x21, [0x10FFFF]), (0x20, [0x61]), (0x11, [0x42]), (0x10, [0x41]), (65535, [0x1F600, 0x41])] := by decide +kernel
+
+/-- a spelling with everything the layout allows: a `%!PS` comment ended by CR, header junk with a dictionary, a
+    literal string and names, a codespace range, form feed / NUL / TAB white space, a one-byte code, lower-case
+    digits, a space inside a hexadecimal string, a comment between the strings of an entry, two blocks, text after
+    `endcmap` -/
+def exSpelling : Bytes :=
+  "%!PS\r/CIDInit /ProcSet findresource begin << /Registry (Adobe) >> def\n1 begincodespacerange <00> <ffff> endcodespacerange /X usecmap\n2\x0cbeginbfchar\x00<03>\t<00 20>% c <0001>\r<ffff><d83dDE00 0041>endbfchar 2 beginbfrange <0010><0012> % x\n <0041>\n<0020> <0021> [<0061><DBFF dfff>]\rendbfrange\nendcmap x beginbfchar".toUTF8.toList
+
+def exSpellingEntries : List Ent :=
+  [.char 3 [0x20], .char 65535 [0x1F600, 0x41], .rstr 0x10 [[0x41], [0x42], [0x43]], .rarr 0x20 [[0x61], [0x10FFFF]]]
+
+theorem exSpelling_certified : spellsCheck exSpellingEntries exSpelling = true := by decide +kernel
+/-- hence (no second evaluation) the reader maps every code of that text as the specification says -/
+example : ∃ m, parseCMap exSpelling = .ok m ∧ ∀ cid, m.get cid = denote exSpellingEntries cid :=
+  (certificates_sound _ _ exSpelling_certified).2
+/-- the checker refuses a text that is not a spelling of the entries (here: a wrong destination) -/
+example : spellsCheck [.char 3 [0x21]] "1 beginbfchar <03> <0020> endbfchar".toUTF8.toList = false := by decide +kernel
 
 /-- a sorted map with a run at the very end of the code range (no `u16` overflow), singletons and a run -/
 def exMap : List Entry := [(1, [0x41]), (2, [0x1F600]), (3, [0x43]), (9, [0x44]), (65534, [0x45]), (65535, [0x46])]
@@ -223,6 +310,16 @@ example : parseCMap d39Text = .ok [] := by decide +kernel
 example : (cidWidths 1000 [.int 0 0, .arr []]).isOk = true := by decide
 example : cidWidths 1000 [.int 0 0, .int (-1) 0, .int 500 500] = .err := by decide
 example : cidWidths 1000 [.int 0 0, .int 2147483647 0, .int 500 500] = .err := by decide
+
+/-- simple fonts: a table at FirstChar 32 with /MissingWidth 500; no descriptor; MMType1 / Type3 -/
+example : (match widthsOf 0 (.simple (some 32) (some [600, 700]) (some 500) : FontM Nat) with
+           | .ok (some w) => [w.get 31, w.get 32, w.get 33, w.get 34] | _ => []) = [500, 600, 700, 500] := by decide
+example : (match widthsOf 0 (.simple (some 32) (some [600]) none : FontM Nat) with
+           | .ok (some w) => [w.get 31, w.get 32, w.get 33] | _ => []) = [0, 600, 0] := by decide
+/-- /Differences [39 /quotesingle 96 /grave /a 39 /x]: the later `39` wins -/
+example : (match FontEncoding.readDiffs 0 [.int 39, .name "quotesingle", .int 96, .name "grave", .name "a", .int 39, .name "x"] [] with
+           | .ok m => [m.get 39, m.get 96, m.get 97, m.get 98] | _ => []) = [some "x", some "grave", some "a", none] := by decide
+example : FontEncoding.readDiffs 0 [FontEncoding.DP.int (-1), .name "a"] ([] : FontEncoding.DMap String) = .err := by decide
 
 /-- a /W array in the property's domain, groups out of order, runs and ranges, by reference and in place -/
 def exGroups : List (Group Nat) :=
